@@ -9,14 +9,14 @@
      disturbance symbols of the network's elements and the declared parameters;
    levels_are_regroupings: the results at the three levels are the per-element / per-variable-name
      / single-vector regroupings of one and the same step result.
-   PARTIAL: the positional statement "result k is the successor of state argument k" is, in the
-   model, the fact that tf_inputs and state_outputs enumerate the same (element, variable) labels
-   in the same order (both are built from Network.elements and the key order of the state
-   dictionaries); it is checked on the implementation by the dynamic runs (distinct-entry probe
-   against the NumPy step through the documented layout) but not yet stated as a Coq theorem. *)
+   positional_successor: the state arguments and the results carry the same (element, variable)
+     labels with the same sizes in the same order (links in Network.links order with rho then v, then
+     queued origins with w), at level 0; the same stable regrouping by variable name on both sides
+     at level 1 (result names with a trailing "+"); one vector of equal size at level 2 - so result k
+     is the successor of state argument k and can be fed back. *)
 From Coq Require Import Reals List.
 From SM.specs Require Import C04_spec.
-From SM.proofs Require Import Layout.
+From SM.proofs Require Import Layout Positional.
 
 Theorem C04_results_closed : results_closed.
 Proof. exact results_closed_proof. Qed.
@@ -27,3 +27,6 @@ Print Assumptions C04_arguments_exact.
 Theorem C04_levels_are_regroupings : levels_are_regroupings.
 Proof. exact levels_are_regroupings_proof. Qed.
 Print Assumptions C04_levels_are_regroupings.
+Theorem C04_positional_successor : positional_successor.
+Proof. exact positional_successor_proof. Qed.
+Print Assumptions C04_positional_successor.
